@@ -81,7 +81,16 @@ def generate(rs: int, tier: str, index: int) -> dict:
     exp_sign, mul_sign = ("**", "*") if sympy_case else ch.choice(DISPLAY_SIGNS)
     display = {"display_graded": ch.chance(0.5), "display_reverse": ch.chance(0.5), "display_inverse": ch.chance(0.5),
                "display_exponent": exp_sign, "display_multiply": mul_sign}
-    step = {"id": 0, "k": "sympy" if sympy_case else "text", "p": lit, "display": display, "all_orders": ch.chance(0.3),
+    if kindc == "int" and lit["dtype"] == "int64" and ch.chance(0.15):
+        # integers beyond 2**53 (not representable as float64) must print and read back exactly
+        for col in lit["coefficients"]:
+            for j in range(len(col)):
+                if ch.chance(0.3):
+                    col[j] = ch.choice([2**53 + 1, -(2**53) - 1, 2**63 - 1, -(2**63) + 1, 2**60 + 7])
+    other = {}
+    if ch.chance(0.3):  # str/repr must denote the polynomial whatever else is configured
+        other = {"retain_names": ch.chance(0.3), "retain_coefficients": ch.chance(0.5)}
+    step = {"id": 0, "k": "sympy" if sympy_case else "text", "p": lit, "display": display, "other_options": other, "all_orders": ch.chance(0.3),
             "reach": ch.weighted([(5, "direct"), (2, "nested"), (2, "set_inside")])}
     pols = POLICIES if tier == "thorough" else ["stable", ch.choice(POLICIES[1:])]
     return {"property": ID, "run_seed": rs, "tier": tier, "prelude": prelude.gen_prelude(core.Chooser(rs, "prelude")), "policies": pols, "steps": [step]}
@@ -213,8 +222,8 @@ def split_elements(text: str, exp_sign: str, mul_sign: str, is_repr: bool) -> Li
 
 
 class reach_display:
-    def __init__(self, how: str, display: dict):
-        self.how, self.display = how, display
+    def __init__(self, how: str, display: dict, other: Optional[dict] = None):
+        self.how, self.display = how, dict(display, **(other or {}))
         self.stack: List[Any] = []
 
     def __enter__(self) -> None:
@@ -282,7 +291,7 @@ class Runner:
         for display in self.displays(step):
             texts = {}
             for pol in self.plan["policies"]:
-                with seams.Env(core.H(self.rs, pol), sort=pol) as env, reach_display(step.get("reach", "direct"), display):
+                with seams.Env(core.H(self.rs, pol), sort=pol) as env, reach_display(step.get("reach", "direct"), display, step.get("other_options")):
                     env.begin_step(sid)
                     try:
                         s_text, r_text = str(p), repr(p)
@@ -371,7 +380,7 @@ class Runner:
             return
         display = {k: v for k, v in step["display"].items() if isinstance(v, bool)}
         for pol in self.plan["policies"]:
-            with seams.Env(core.H(self.rs, pol), sort=pol) as env, reach_display("direct", dict(display, display_exponent="**", display_multiply="*")):
+            with seams.Env(core.H(self.rs, pol), sort=pol) as env, reach_display("direct", dict(display, display_exponent="**", display_multiply="*"), step.get("other_options")):
                 env.begin_step(sid)
                 try:
                     back = numpoly.polynomial(numpoly.to_sympy(p))
@@ -431,6 +440,8 @@ def simplify(plan: dict):
             for r in (True, False):
                 for i in (True, False):
                     yield dict(plan, steps=[dict(step, all_orders=False, display=dict(step["display"], display_graded=g, display_reverse=r, display_inverse=i))])
+    if step.get("other_options"):
+        yield dict(plan, steps=[dict(step, other_options={})])
     if step.get("reach") != "direct":
         yield dict(plan, steps=[dict(step, reach="direct")])
     if step["display"]["display_exponent"] != "**" or step["display"]["display_multiply"] != "*":
